@@ -2,5 +2,5 @@
 EXTENDS MetricsLifecycle
 SeriesC == {"s1", "s2", "s3"}
 GroupsC == {{"s1", "s2"}, {"s3"}}
-View == <<open, blocks, rotated, acc, last, nputs, nrestarts>>
+View == <<open, blocks, rotated, acc, last, tmem, tdisk, hrot, firstseg, nputs, nrestarts>>
 =============================================================================
